@@ -419,8 +419,16 @@ func (p *parser) parsePrimary() Expr {
 			p.expect("(")
 			x := p.parseExpr(0)
 			p.expect(")")
-			p.expect("==")
+			neg := false
+			if p.accept("!=") {
+				neg = true
+			} else {
+				p.expect("==")
+			}
 			ty := p.parseType()
+			if neg {
+				return EUnary{"!", ETypeIs{x, ty}}
+			}
 			return ETypeIs{x, ty}
 		}
 		if p.isOp("(") {
@@ -557,6 +565,7 @@ type FuncContract struct {
 	Key         string // canonical: pkgpath.[Type.]Name
 	File        string
 	Extern      bool
+	Interface   bool // contract of an interface method (used at invoke sites; nothing to verify)
 	Trusted     bool
 	Inline      bool
 	Pure        bool // no heap effect at all
@@ -569,6 +578,7 @@ type FuncContract struct {
 	HasModifies bool
 	Allocates   []string // component prefixes the callee may initialise on fresh objects
 	Loops       []*LoopContract
+	Iters       []*LoopContract // invariants of expanded iteration-primitive calls, by ordinal
 	Asserts     []Clause // extra call-site/at-exit assertions (unused for now)
 	SigSrc      string
 	GhostSets   []GhostSet // ghost assignments performed at every return
@@ -600,6 +610,7 @@ type PureFunc struct {
 }
 
 type GhostField struct {
+	Alias string // explicit component name shared by several ghost fields ("as <comp>")
 	Owner *TypeExpr
 	Name  string
 	T     *TypeExpr
@@ -611,6 +622,7 @@ type MonitorDecl struct {
 	Pkg       string
 	TypeName  string // struct owning the lock
 	LockField string
+	CallsVia  []string // fields of the receiver struct whose interface methods may only be invoked with the lock held
 	Guards    []string // component names (resolved later)
 	GuardsSrc []string
 	Atomics   []string
@@ -632,7 +644,7 @@ var declKeywords = map[string]bool{
 	"import": true, "ghost": true, "pure": true, "axiom": true, "func": true, "extern": true,
 	"requires": true, "ensures": true, "modifies": true, "allocates": true, "loop": true, "invariant": true,
 	"inline": true, "trusted": true, "monitor": true, "guards": true, "atomics": true, "heappure": true,
-	"iterates": true, "nomod": true, "ghostset": true,
+	"iterates": true, "nomod": true, "ghostset": true, "iface": true, "iter": true, "callsvia": true,
 }
 
 // logicalLines extracts //@ lines and joins continuation lines (those not starting with a keyword).
@@ -806,11 +818,17 @@ func ParseContractFile(path, pkgPath, text string) (*ContractFile, error) {
 			if err != nil {
 				return nil, fail(l, err)
 			}
-			ft, err := parseTypeString(strings.TrimSpace(r[sp:]))
+			tsrc := strings.TrimSpace(r[sp:])
+			alias := ""
+			if i := strings.Index(tsrc, " as "); i >= 0 {
+				alias = strings.TrimSpace(tsrc[i+4:])
+				tsrc = strings.TrimSpace(tsrc[:i])
+			}
+			ft, err := parseTypeString(tsrc)
 			if err != nil {
 				return nil, fail(l, err)
 			}
-			cf.Ghosts = append(cf.Ghosts, GhostField{Owner: ownerT, Name: full[dot+1:], T: ft, Pkg: pkgPath})
+			cf.Ghosts = append(cf.Ghosts, GhostField{Owner: ownerT, Name: full[dot+1:], T: ft, Pkg: pkgPath, Alias: alias})
 		case "pure":
 			// pure func name(params) type { body }
 			r := strings.TrimSpace(strings.TrimPrefix(rest, "func"))
@@ -841,13 +859,13 @@ func ParseContractFile(path, pkgPath, text string) (*ContractFile, error) {
 			for _, n := range strings.Split(rest, ",") {
 				cf.PureCalls = append(cf.PureCalls, strings.TrimSpace(n))
 			}
-		case "func", "extern":
+		case "func", "extern", "iface":
 			sig := rest
 			ext := kw == "extern"
-			if ext {
+			if ext || kw == "iface" {
 				sig = strings.TrimSpace(strings.TrimPrefix(sig, "func"))
 			}
-			fc := &FuncContract{Extern: ext, Trusted: ext, File: path, SigSrc: sig}
+			fc := &FuncContract{Extern: ext, Trusted: ext, Interface: kw == "iface", File: path, SigSrc: sig}
 			recvT, name, err := parseSignature(sig, fc)
 			if err != nil {
 				return nil, fail(l, err)
@@ -886,6 +904,12 @@ func ParseContractFile(path, pkgPath, text string) (*ContractFile, error) {
 				switch {
 				case strings.HasPrefix(part, "all(") && strings.HasSuffix(part, ")"):
 					ml.Kind, ml.Comp = "all", strings.TrimSpace(part[4:len(part)-1])
+				case strings.HasPrefix(part, "setview(") && strings.HasSuffix(part, ")"):
+					e, err := parseExprString(part[8 : len(part)-1])
+					if err != nil {
+						return nil, fail(l, err)
+					}
+					ml.Kind, ml.E = "setview", e
 				case strings.HasPrefix(part, "contents(") && strings.HasSuffix(part, ")"):
 					e, err := parseExprString(part[9 : len(part)-1])
 					if err != nil {
@@ -929,7 +953,7 @@ func ParseContractFile(path, pkgPath, text string) (*ContractFile, error) {
 			for _, part := range strings.Split(rest, ",") {
 				cur.Allocates = append(cur.Allocates, strings.TrimSpace(part))
 			}
-		case "loop":
+		case "loop", "iter":
 			if cur == nil {
 				return nil, fail(l, fmt.Errorf("loop outside func"))
 			}
@@ -939,7 +963,11 @@ func ParseContractFile(path, pkgPath, text string) (*ContractFile, error) {
 			if len(parts) > 1 {
 				lc.Hint = strings.Trim(strings.TrimSpace(parts[1]), `"`)
 			}
-			cur.Loops = append(cur.Loops, lc)
+			if kw == "iter" {
+				cur.Iters = append(cur.Iters, lc)
+			} else {
+				cur.Loops = append(cur.Loops, lc)
+			}
 			curLoop = lc
 		case "inline":
 			if cur != nil {
@@ -994,6 +1022,13 @@ func ParseContractFile(path, pkgPath, text string) (*ContractFile, error) {
 			}
 			for _, g := range strings.Split(rest, ",") {
 				curMon.GuardsSrc = append(curMon.GuardsSrc, strings.TrimSpace(g))
+			}
+		case "callsvia":
+			if curMon == nil {
+				return nil, fail(l, fmt.Errorf("callsvia outside monitor"))
+			}
+			for _, g := range strings.Split(rest, ",") {
+				curMon.CallsVia = append(curMon.CallsVia, strings.TrimSpace(g))
 			}
 		case "atomics":
 			if curMon == nil {
